@@ -1,6 +1,7 @@
 package main
 
 import (
+	"go/types"
 	"fmt"
 	"go/ast"
 	"go/token"
@@ -151,7 +152,7 @@ func c07Decay(p *Prog, r *Report) {
 // ---------------------------------------------------------------- R4 tillage
 
 func c07Tillage(p *Prog, r *Report) {
-	r.Rule("C07.R4", "tillage mixing preserves sums: for each mixed pool the summation loop and the averaging loop run over the same layers and the divisor equals their trip count", 5)
+	r.Rule("C07.R4", "tillage mixing preserves sums: for each mixed pool the summation loop and the averaging loop run over the same layers and the divisor equals their trip count; all mixed pools have the same array capacity", 10)
 	x := walked(p, "hermes.Nitro")
 	if x == nil {
 		r.Ob("Nitro", "-", false, "hermes.Nitro not found")
@@ -225,6 +226,43 @@ func c07Tillage(p *Prog, r *Report) {
 			r.Ob("mix:"+shortRoot(A), "-", false, "tillage mixing of "+A+" (sum loop + averaging loop) not found")
 		}
 	}
+	// the mixing depth is a run-time value (tillage depth / layer thickness) bounded only by the profile: every
+	// pool mixed by the same loops must have room for all layers the per-layer pools have, otherwise a tillage
+	// deeper than the shortest array ends the whole process with an index panic instead of mixing
+	if st := structOf(p, "GlobalVarsMain"); st != nil {
+		lens := map[string]int64{}
+		var maxLen int64
+		for _, A := range arrays {
+			name := shortRoot(A)
+			for i := 0; i < st.NumFields(); i++ {
+				if st.Field(i).Name() == name {
+					if at, ok := st.Field(i).Type().Underlying().(*types.Array); ok {
+						lens[name] = at.Len()
+						if at.Len() > maxLen {
+							maxLen = at.Len()
+						}
+					}
+				}
+			}
+		}
+		for _, A := range arrays {
+			name := shortRoot(A)
+			n, has := lens[name]
+			r.Ob("mix:capacity:"+name, "-", has && n == maxLen, fmt.Sprintf("%s has %d elements; the pools mixed by the same loops have up to %d (the mixing loops run to the tillage depth, which is bounded by the profile only)", name, n, maxLen))
+		}
+	}
+}
+
+func structOf(p *Prog, name string) *types.Struct {
+	if p.Hermes == nil {
+		return nil
+	}
+	o := p.Hermes.Types.Scope().Lookup(name)
+	if o == nil {
+		return nil
+	}
+	st, _ := o.Type().Underlying().(*types.Struct)
+	return st
 }
 
 // ---------------------------------------------------------------- R5 sign safety of mineral N stores
